@@ -27,6 +27,7 @@ ASSUMPTIONS = [
     "branch lengths are supplied directly through the branch-length parameter (documented index convention)",
 ]
 BUDGET = {"quick": 80, "thorough": 900}
+ROUNDS = {"thorough": 3}
 FLOORS = {"evaluations_compared": {"quick": 150, "thorough": 1200}, "in_denormal_band": {"quick": 20, "thorough": 150},
           "beyond_underflow": {"quick": 10, "thorough": 60}, "history_steps": {"quick": 60, "thorough": 400}}
 
